@@ -44,7 +44,17 @@ InheritHolder(plain) == <<"dc", "Drawing", << <<"shape", ParentPlain, <<"req">>,
                                                <<"more", <<"list", ChildPlain>>, <<"fac", L(<<>>)>>, <<>> >> >>,
                           IF plain THEN << <<"mixin", "plain">> >> ELSE <<>> >>
 Types1I == { InheritHolder(TRUE), InheritHolder(FALSE) }
-Types == IF Depth = 0 THEN Leaves ELSE IF Depth = 1 THEN Types1 \cup Types1N \cup Types1S \cup Types1U \cup Types1I ELSE Types2
+\* a GENERIC plain dataclass Box[T] (v: T, vs: List[T], m: Dict[str, T]) used at several specialisations in one holder
+TVar == <<"tvar", "T">>
+GBox(arg) == <<"dc", "Box", << <<"v", arg, <<"req">>, <<>> >>, <<"vs", <<"list", arg>>, <<"fac", L(<<>>)>>, <<>> >>,
+                               <<"m", <<"dict", <<"str">>, arg>>, <<"fac", Dct(<<>>)>>, <<>> >> >>,
+               << <<"mixin", "plain">>, <<"generic", << <<"T">>, <<arg>>, << <<"v", TVar>>, <<"vs", <<"list", TVar>> >>, <<"m", <<"dict", <<"str">>, TVar>> >> >> >> >> >> >>
+GenHolder(plain) == <<"dc", "GH", << <<"a", GBox(<<"int">>), <<"req">>, <<>> >>, <<"b", GBox(<<"date">>), <<"req">>, <<>> >>,
+                                      <<"c", <<"opt", GBox(<<"list", <<"str">> >>)>>, <<"val", None>>, <<>> >>,
+                                      <<"d", <<"list", GBox(<<"opt", <<"text", "decimal">> >>)>>, <<"fac", L(<<>>)>>, <<>> >> >>,
+                     IF plain THEN << <<"mixin", "plain">> >> ELSE <<>> >>
+Types1G == { GenHolder(TRUE), GenHolder(FALSE), GBox(<<"datetime">>), GBox(<<"union", << <<"int">>, <<"list", <<"int">> >> >> >>) }
+Types == IF Depth = 0 THEN Leaves ELSE IF Depth = 1 THEN Types1 \cup Types1N \cup Types1S \cup Types1U \cup Types1I \cup Types1G ELSE Types2
 FalsyLeaves == { <<"int">>, <<"float">>, <<"bool">>, <<"str">>, <<"bytes">>, <<"timedelta">>, <<"text", "decimal">>, <<"text", "fraction">> }
 AllTypes == Types \cup { Holder(t) : t \in Types } \cup { PlainHolder(t) : t \in Types }
             \cup { FalsyHolder(t, FirstOf(Smp(t))) : t \in Types \cap FalsyLeaves }
